@@ -146,7 +146,7 @@ CHECKS["C13"] = ("E1-pure + E2-sim",
 CHECKS["C04"] = ("E3-puppet + E2-sim",
   "exhaustive re-delivery of every previously sent PDU (singles and ordered pairs) by a puppet sender after the receiver's first success, and exhaustive handshake-loss combinations between two real daemons; invariant oracle after the first success",
   "Puppet family: file transfers and requests-only transactions x Modular/Null checksum x 6 request lists with non-idempotent requests x every single and every ordered pair of late PDUs (Metadata, EOF, both prompts, "
-  "each data segment) delivered while the receiver waits for the ACK of Finished x ACK sent/never x 2 NAK procedures; sampled: 1..5 stragglers at arbitrary moments of that wait (incl. the millisecond of completion, of a Finished retransmission, of the ACK). Real family: ACK(EOF), Finished, ACK(Finished) each lost 0/1/2 times (27 combinations) x sizes x checksum x "
+  "each data segment) delivered while the receiver waits for the ACK of Finished x ACK sent/never x 2 NAK procedures, and the same singles and pairs against a receiver in unacknowledged mode with closure requested (finalised on the EOF, waiting for the ACK of its Finished PDU); sampled (one in four in unacknowledged mode with closure): 1..5 stragglers at arbitrary moments of that wait (incl. the millisecond of completion, of a Finished retransmission, of the ACK). Real family: ACK(EOF), Finished, ACK(Finished) each lost 0/1/2 times (27 combinations) x sizes x checksum x "
   "request lists. Between the first success and the end of that transaction: no checksum/size fault indication or Finished PDU, no second success report, identical filestore responses in every Finished PDU, destination == source and the receiver's filestore == "
   "the model with the requests applied exactly once; a sender reports success only after its receiver did.",
   "Side effects are compared at the end of the run with the C13 model. Late PDUs arriving after the transaction has ended start a new transaction (C11).",
